@@ -489,12 +489,26 @@ func (FramesFaults) Execute(pl engine.Plan, c *engine.RunCtx) *engine.Failure {
 						w := simio.NewWriter()
 						w.Budget, w.Mode, w.Sticky, w.Err = int64(k), mode, sticky, werr
 						step++
+						// a quarter of the failure points meet a writer that is SLOW as well
+						// (its first non-empty Write takes 2 s .. 1 h of simulated time): the
+						// outcome must be the same, and nothing may reach the writer once
+						// Marshal has returned
+						stall := int64(0)
+						if hs := engine.H(p.Seed^0x57a11, uint64(fi), uint64(k)); hs%4 == 0 {
+							stall = []int64{2000000000, 60000000000, 3600000000000}[(hs>>8)%3]
+							st.Inc("fault.configured.io.stall")
+						}
+						w.BeginOp(stall)
 						c.Status.SetStep(uint64(step), 1)
 						n, err, pan := callMarshal(w, fr.msg)
 						c.Status.SetStep(uint64(step), 0)
 						c.LibCalls++
+						late, lateNote, _ := w.EndOp()
 						c.Ev(0, "marshal.wfail", int64(k), n, int64(len(w.Got)))
-						what := fmt.Sprintf("frame=%d(len %d) budget=%d mode=%s sticky=%v", fi, L, k, mode, sticky)
+						what := fmt.Sprintf("frame=%d(len %d) budget=%d mode=%s sticky=%v slow=%dns", fi, L, k, mode, sticky, stall)
+						if late > 0 {
+							return engine.Failf("C07.wfail.late", step, "%s: Marshal had returned (n=%d, err=%v), then %d more Write call(s) reached the writer: %s", what, n, err, late, lateNote)
+						}
 						if pan != nil {
 							return engine.Failf("C07.wfail.panic", step, "%s: Marshal panicked: %v", what, pan)
 						}
